@@ -740,11 +740,12 @@ func pTags(ts osm.Tags) string {
 }
 func pTS(visible bool, version int, cs osm.ChangesetID, uid osm.UserID, user string, ts interface {
 	IsZero() bool
-	UnixNano() int64
+	Unix() int64
+	Nanosecond() int
 }) string {
 	t := "z"
 	if !ts.IsZero() {
-		t = strconv.FormatInt(ts.UnixNano()/1e6, 10)
+		t = strconv.FormatInt(ts.Unix()*1000+int64(ts.Nanosecond())/1e6, 10) // not UnixNano: it wraps after 2262
 	}
 	v := 0
 	if visible {
@@ -830,6 +831,10 @@ type pgen struct {
 func (g *pgen) ts() int64 {
 	if g.r.Chance(4) {
 		return 0 // present with the value zero: the epoch
+	}
+	if g.r.Chance(3) {
+		// before the epoch, and after 2262 (where a nanosecond count no longer fits an int64)
+		return []int64{-86400000, -1000, 10413792000000, 253402300799000}[g.r.Intn(4)] / g.dg
 	}
 	return (1200000000000 + g.r.I64n(500000000000)) / g.dg
 }
